@@ -956,6 +956,22 @@ class Idioms3(ast.NodeTransformer):
         ast.fix_missing_locations(node)
         return node
 
+    def visit_For(self, node):
+        self.generic_visit(node)
+        # for _ in itertools.repeat(x, N) (loop variable unused) -> range(N)
+        it = node.iter
+        if isinstance(it, ast.Call) and norm(it.func) in (
+                "itertools.repeat", "repeat") and len(it.args) == 2 and \
+                not it.keywords and isinstance(node.target, ast.Name) and \
+                not any(isinstance(n, ast.Name) and n.id == node.target.id
+                        for b in node.body + node.orelse
+                        for n in ast.walk(b)):
+            node.iter = ast.copy_location(ast.Call(
+                func=ast.Name(id="range", ctx=ast.Load()),
+                args=[it.args[1]], keywords=[]), it)
+            ast.fix_missing_locations(node)
+        return node
+
     def visit_While(self, node):
         self.generic_visit(node)
         node.test = self._keyset_test(node.test)
@@ -1298,6 +1314,22 @@ class ItemsLoops(ast.NodeTransformer):
     def visit_For(self, node):
         self.generic_visit(node)
         it = node.iter
+        # sorted(D.items()) / sorted(D.items(), key=lambda kv: kv[0]): the
+        # pairs in the order of their (unique) keys
+        wrap = False
+        if isinstance(it, ast.Call) and norm(it.func) == "sorted" and len(
+                it.args) == 1 and isinstance(it.args[0], ast.Call) and \
+                isinstance(it.args[0].func, ast.Attribute) and \
+                it.args[0].func.attr == "items" and not it.args[0].args:
+            kws = {k.arg: k.value for k in it.keywords}
+            kf = kws.get("key")
+            by_key = kf is None or (isinstance(kf, ast.Lambda) and len(
+                kf.args.args) == 1 and norm(kf.body) ==
+                f"{kf.args.args[0].arg}[0]") or norm(kf) in (
+                "operator.itemgetter(0)", "itemgetter(0)")
+            if set(kws) <= {"key"} and by_key:
+                wrap = True
+                it = it.args[0]
         if not (isinstance(it, ast.Call) and isinstance(
                 it.func, ast.Attribute) and it.func.attr == "items"
                 and not it.args and not it.keywords):
@@ -1337,6 +1369,9 @@ class ItemsLoops(ast.NodeTransformer):
         node.target = ast.copy_location(ast.Name(id=k, ctx=ast.Store()),
                                         node.target)
         node.iter = it.func.value
+        if wrap:
+            node.iter = ast.Call(func=ast.Name(id="sorted", ctx=ast.Load()),
+                                 args=[node.iter], keywords=[])
         ast.fix_missing_locations(node)
         return node
 
@@ -3840,6 +3875,224 @@ def inline_record_tables(tree):
                                and id(n) not in inside
                                for n in ast.walk(tree)):
                 tree.body = [x for x in tree.body if x is not cls[0]]
+        ast.fix_missing_locations(tree)
+    return done
+
+
+def singledispatch_to_chain(tree):
+    """`@functools.singledispatch def f(x, ..): DEFAULT` plus
+    `@f.register(T) def g(x, ..): BODY` (module level, same parameter
+    lists up to names) -> one function `f` with an isinstance chain
+    (registered types first, in registration order, the default last).
+    Only when the registered types are builtin/unrelated names, so that
+    the order of the tests cannot matter."""
+    disp = {}
+    for st in tree.body:
+        if isinstance(st, ast.FunctionDef) and any(norm(d) in (
+                "functools.singledispatch", "singledispatch")
+                for d in st.decorator_list) and len(
+                st.decorator_list) == 1 and st.args.args:
+            disp[st.name] = (st, [])
+    if not disp:
+        return False
+    regs = []
+    for st in tree.body:
+        if not isinstance(st, ast.FunctionDef) or not st.decorator_list:
+            continue
+        owners = set()
+        types = []
+        ok = True
+        for d in st.decorator_list:
+            if isinstance(d, ast.Call) and isinstance(
+                    d.func, ast.Attribute) and d.func.attr == "register" \
+                    and isinstance(d.func.value, ast.Name) and \
+                    d.func.value.id in disp and len(d.args) == 1 and \
+                    isinstance(d.args[0], (ast.Name, ast.Attribute)):
+                owners.add(d.func.value.id)
+                types.append(d.args[0])
+            else:
+                ok = False
+        if ok and len(owners) == 1:
+            regs.append((owners.pop(), st, types))
+    done = False
+    for name, (fdef, _) in disp.items():
+        mine = [(st, types) for o, st, types in regs if o == name]
+        if not mine:
+            continue
+        params = [a.arg for a in fdef.args.args]
+        if any(len(st.args.args) != len(params) or st.args.vararg
+               or st.args.kwarg or st.args.kwonlyargs for st, _ in mine):
+            continue
+        alltypes = [norm(t) for _, ts in mine for t in ts]
+        # related types (bool/int, subclasses we cannot see): keep away
+        if {"bool", "int"} <= set(alltypes) or len(set(alltypes)) != len(
+                alltypes):
+            continue
+        # other references to the registered functions' own names
+        if any(isinstance(n, ast.Name) and n.id == st.name and st.name != "_"
+               for st, _ in mine for n in ast.walk(tree)):
+            continue
+        chain = None
+        dflt = [b for b in fdef.body if not (isinstance(
+            b, ast.Expr) and isinstance(b.value, ast.Constant))] or [
+            ast.Pass()]
+        tail = dflt
+        for st, types in reversed(mine):
+            ren = {a.arg: p_ for a, p_ in zip(st.args.args, params)
+                   if a.arg != p_}
+            body = [clone(b) for b in st.body if not (isinstance(
+                b, ast.Expr) and isinstance(b.value, ast.Constant))] or [
+                ast.Pass()]
+            if ren:
+                for b in body:
+                    for n in ast.walk(b):
+                        if isinstance(n, ast.Name) and n.id in ren:
+                            n.id = ren[n.id]
+            tt = types[0] if len(types) == 1 else ast.Tuple(
+                elts=list(reversed(types)), ctx=ast.Load())
+            test = ast.Call(func=ast.Name(id="isinstance", ctx=ast.Load()),
+                            args=[ast.Name(id=params[0], ctx=ast.Load()),
+                                  tt], keywords=[])
+            tail = [ast.If(test=test, body=body, orelse=tail)]
+        doc = [b for b in fdef.body[:1] if isinstance(b, ast.Expr)
+               and isinstance(b.value, ast.Constant)]
+        fdef.body = doc + tail
+        fdef.decorator_list = []
+        gone = {id(st) for st, _ in mine}
+        tree.body = [b for b in tree.body if id(b) not in gone]
+        ast.fix_missing_locations(fdef)
+        done = True
+    return done
+
+
+def sentinel_gets(tree):
+    """`_S = object()` at module level; in a function `v = D.get(K, _S)`
+    with tests `v is _S` / `v is not _S`  ->  tests `K not in D` / `K in D`;
+    then either v is read only where the key is present (`D[K]` in place,
+    assignment dropped) or `if K not in D: v = E` follows with nothing
+    reading v in between (`v = D.get(K, E)` at that place, E an attribute
+    chain or name)."""
+    sent = set()
+    for st in tree.body:
+        if isinstance(st, ast.Assign) and len(st.targets) == 1 and \
+                isinstance(st.targets[0], ast.Name) and isinstance(
+                st.value, ast.Call) and norm(st.value) == "object()":
+            sent.add(st.targets[0].id)
+    if not sent:
+        return False
+    done = False
+    for fn in [n for n in ast.walk(tree) if isinstance(n, ast.FunctionDef)]:
+        gets = []
+        for par in [fn] + list(_walk_own(fn)):
+            for fld in ("body", "orelse", "finalbody"):
+                blk = getattr(par, fld, None)
+                if not isinstance(blk, list):
+                    continue
+                for st in blk:
+                    if isinstance(st, ast.Assign) and len(
+                            st.targets) == 1 and isinstance(
+                            st.targets[0], ast.Name) and isinstance(
+                            st.value, ast.Call) and isinstance(
+                            st.value.func, ast.Attribute) and \
+                            st.value.func.attr == "get" and len(
+                            st.value.args) == 2 and isinstance(
+                            st.value.args[1], ast.Name) and \
+                            st.value.args[1].id in sent and \
+                            not st.value.keywords:
+                        gets.append((blk, st))
+        for blk, st in gets:
+            v = st.targets[0].id
+            D, K, S = st.value.func.value, st.value.args[0], \
+                st.value.args[1].id
+            if any(isinstance(x, (ast.Call, ast.NamedExpr, ast.Lambda))
+                   and not (isinstance(x, ast.Call) and isinstance(
+                       x.func, ast.Attribute) and x.func.attr == "format")
+                   for e in (D, K) for x in ast.walk(e)):
+                continue
+            stores = [n for n in ast.walk(fn) if isinstance(n, ast.Name)
+                      and n.id == v and isinstance(n.ctx, ast.Store)]
+            # tests on v
+            tests = [c for c in ast.walk(fn) if isinstance(c, ast.Compare)
+                     and len(c.ops) == 1 and isinstance(
+                         c.ops[0], (ast.Is, ast.IsNot))
+                     and {norm(c.left), norm(c.comparators[0])} == {v, S}]
+            if not tests:
+                continue
+            for c in tests:
+                neg = isinstance(c.ops[0], ast.Is)      # v is S: absent
+                new = ast.Compare(left=clone(K),
+                                  ops=[ast.NotIn() if neg else ast.In()],
+                                  comparators=[clone(D)])
+                _replace_in(fn, c, ast.fix_missing_locations(new))
+            loads = [n for n in ast.walk(fn) if isinstance(n, ast.Name)
+                     and n.id == v and isinstance(n.ctx, ast.Load)]
+            if len(stores) == 1:
+                sub = ast.Subscript(value=clone(D), slice=clone(K),
+                                    ctx=ast.Load())
+                for n in loads:
+                    _replace_in(fn, n, ast.fix_missing_locations(clone(sub)))
+                blk.remove(st)
+                if not blk:
+                    blk.append(ast.copy_location(ast.Pass(), st))
+                done = True
+                continue
+            # `if K not in D: v = E` later in the same block
+            i = blk.index(st)
+            for j in range(i + 1, len(blk)):
+                s2 = blk[j]
+                if isinstance(s2, ast.If) and not s2.orelse and len(
+                        s2.body) == 1 and isinstance(
+                        s2.body[0], ast.Assign) and norm(
+                        s2.body[0].targets[0]) == v and norm(s2.test) == \
+                        norm(ast.Compare(left=K, ops=[ast.NotIn()],
+                                         comparators=[D])) and isinstance(
+                        s2.body[0].value, (ast.Name, ast.Attribute,
+                                           ast.Constant)):
+                    between = [n for s_ in blk[i + 1:j] for n in ast.walk(s_)
+                               if isinstance(n, ast.Name) and n.id == v]
+                    if between or len(stores) != 2:
+                        break
+                    st.value.args[1] = s2.body[0].value
+                    blk[j] = st
+                    del blk[i]
+                    done = True
+                    break
+                # ... or nested one level down, v read only after it there
+                if isinstance(s2, ast.If) and len(stores) >= 2:
+                    inner = [x for x in s2.body if isinstance(x, ast.If)
+                             and not x.orelse and len(x.body) == 1
+                             and isinstance(x.body[0], ast.Assign)
+                             and norm(x.body[0].targets[0]) == v
+                             and norm(x.test) == norm(ast.Compare(
+                                 left=K, ops=[ast.NotIn()],
+                                 comparators=[D]))
+                             and isinstance(x.body[0].value, (
+                                 ast.Name, ast.Attribute, ast.Constant))]
+                    outside = [n for s_ in blk[i + 1:] if s_ is not s2
+                               for n in ast.walk(s_)
+                               if isinstance(n, ast.Name) and n.id == v]
+                    before_ = []
+                    if len(inner) == 1:
+                        k_ = s2.body.index(inner[0])
+                        before_ = [n for s_ in s2.body[:k_]
+                                   for n in ast.walk(s_)
+                                   if isinstance(n, ast.Name) and n.id == v]
+                    if len(inner) == 1 and len(stores) == 2 and \
+                            not outside and not before_ and not any(
+                                isinstance(n, ast.Name) and n.id == v
+                                for n in ast.walk(s2.test)) and not any(
+                                isinstance(n, ast.Name) and n.id == v
+                                for o_ in s2.orelse for n in ast.walk(o_)):
+                        st.value.args[1] = inner[0].body[0].value
+                        s2.body[k_] = st
+                        del blk[i]
+                        done = True
+                        break
+                if any(isinstance(n, ast.Name) and n.id == v
+                       for n in ast.walk(s2)):
+                    break
+            done = True
+    if done:
         ast.fix_missing_locations(tree)
     return done
 
